@@ -154,7 +154,7 @@ fn trailing_underscore_value(s: &str) -> Option<T> {
     if !matches!(isotok::tokenize(rest), Ok(ref v) if v.is_empty()) {
         return None;
     }
-    match isotok::eval_number_text(&s[..i]) {
+    match eval_text(&s[..i]) {
         NumEval::Value(v) | NumEval::ValueWithLayout(v) => Some(v),
         NumEval::NotNumber => None,
     }
@@ -182,8 +182,30 @@ fn ask(q: &str, arity: usize, what: &str) -> Ans {
     }
 }
 
+/// `isotok::eval_number_text`, except that an end of input INSIDE a token (`0'` with nothing
+/// behind it, e.g. "0'00'" = the token 0'0 followed by an unfinished 0') makes the text a
+/// non-number. The harness lexer reports that situation with the same `Eof` it uses for a clean
+/// end, and eval_number_text would take "0'00'" for the number 48 followed by nothing. (The
+/// proptest generator of C16 never builds such a text; the fuzzer does within seconds.)
+fn eval_text(s: &str) -> NumEval {
+    let mut lx = isotok::Lexer::new(s);
+    loop {
+        match lx.next() {
+            Ok(_) => {}
+            Err(isotok::LexError::Eof) => {
+                if lx.last_start < lx.pos {
+                    return NumEval::NotNumber;
+                }
+                break;
+            }
+            Err(_) => return NumEval::NotNumber,
+        }
+    }
+    isotok::eval_number_text(s)
+}
+
 fn check_spelling(s: &str, known: &[String]) -> Result<(), Fail> {
-    let ev = isotok::eval_number_text(s);
+    let ev = eval_text(s);
     let a = match ask(&format!("fzn_spell({}, R)", mach::codes_text(s)), 3, &format!("spelling {s:?}")) {
         Ans::Args(a) => a,
         Ans::Fail(f) => return Err(f),
@@ -304,7 +326,7 @@ fn check_number(n: &T, known: &[String]) -> Result<(), Fail> {
             other => return Err((format!("to-text-error:{name}:{kind}"), format!("{name} of {} gives {other:?}", n.text()))),
         };
         // the text must denote the number for the harness's own literal evaluator ...
-        match isotok::eval_number_text(&text) {
+        match eval_text(&text) {
             NumEval::Value(v) if num_eq(&v, n) => {}
             other => {
                 let sig = format!("text-not-a-literal-of-the-number:{name}:{kind}");
